@@ -31,7 +31,9 @@ Section SnapAppend3.
     intros Hcm (ext & E1 & E2 & E3 & E4). unfold ae_commit.
     destruct ((0 <? aq_commit a) && (v_commit s8 <? aq_commit a)).
     2:{ exists ext. simpl. auto. }
-    set (idx := N.min (aq_commit a) (last_index s8)).
+    cbv zeta. set (idx := N.min (aq_commit a) (N.min (last_new a) (last_index s8))).
+    destruct (v_commit s8 <? idx).
+    2:{ exists ext. simpl. auto. }
     assert (Hidx : idx <= c0) by (unfold idx; lia).
     set (s9 := set_commit s8 idx).
     set (s10 := if v_latestIdx s9 <=? idx then set_committed s9 (v_latest s9) (v_latestIdx s9) else s9).
